@@ -257,8 +257,87 @@ class Normaliser:
             b = sym.Bindings(new)
             new.body = map_blocks(new.body, lambda stmts: self._unroll(stmts, b))
             new.body = map_blocks(new.body, self._pre)
+        relink(new)
+        new.body = map_blocks(new.body, lambda stmts: self._first_of_filtered(stmts, new))
         ast.fix_missing_locations(new)
         return relink(new)
+
+    # ------------------------------------------------------------------ I10: first element of a filtered list -> search loop
+    def _first_of_filtered(self, stmts, fn):
+        """L = []; for v in SEQ: [if C:] L.append(v)   with L only used as `L[0]` / truth value / len(L) against 0
+        becomes   L = None; for v in SEQ: [if C:] L = v; break    and the uses `L`, `L is not None`"""
+        out = list(stmts)
+        for i in range(len(out) - 1):
+            a, lp = out[i], out[i + 1]
+            if not (isinstance(a, ast.Assign) and len(a.targets) == 1 and isinstance(a.targets[0], ast.Name)
+                    and isinstance(a.value, ast.List) and not a.value.elts and isinstance(lp, ast.For) and not lp.orelse and len(lp.body) == 1):
+                continue
+            L = a.targets[0].id
+            inner = lp.body[0]
+            holder = lp.body
+            if isinstance(inner, ast.If) and not inner.orelse and len(inner.body) == 1:
+                holder, inner = inner.body, inner.body[0]
+            if not (isinstance(inner, ast.Expr) and isinstance(inner.value, ast.Call) and isinstance(inner.value.func, ast.Attribute)
+                    and inner.value.func.attr == "append" and isinstance(inner.value.func.value, ast.Name) and inner.value.func.value.id == L
+                    and len(inner.value.args) == 1 and not inner.value.keywords and isinstance(inner.value.args[0], ast.Name)
+                    and inner.value.args[0].id in {m.id for m in ast.walk(lp.target) if isinstance(m, ast.Name)}):
+                continue
+            own = {id(n) for n in ast.walk(a)} | {id(n) for n in ast.walk(lp)}
+            uses = [n for n in ast.walk(fn) if isinstance(n, ast.Name) and n.id == L and id(n) not in own]
+            if not uses or any(n.id == L for n in ast.walk(lp.iter) if isinstance(n, ast.Name)):
+                continue
+            plan = []
+            for n in uses:
+                par = getattr(n, "_parent", None)
+                gp = getattr(par, "_parent", None)
+                if not isinstance(n.ctx, ast.Load):
+                    plan = None
+                    break
+                if isinstance(par, ast.Subscript) and par.value is n and isinstance(par.slice, ast.Constant) and par.slice.value == 0 \
+                        and type(par.slice.value) is int and isinstance(par.ctx, ast.Load):
+                    plan.append(("first", par))
+                elif (isinstance(par, (ast.If, ast.While, ast.IfExp)) and par.test is n) or isinstance(par, ast.BoolOp) \
+                        or (isinstance(par, ast.UnaryOp) and isinstance(par.op, ast.Not)):
+                    plan.append(("truth", n))
+                elif isinstance(par, ast.Call) and isinstance(par.func, ast.Name) and par.func.id == "len" and len(par.args) == 1 \
+                        and isinstance(gp, ast.Compare) and len(gp.ops) == 1 and gp.left is par and isinstance(gp.comparators[0], ast.Constant) \
+                        and type(gp.comparators[0].value) is int:
+                    k, op = gp.comparators[0].value, gp.ops[0]
+                    if (k == 0 and isinstance(op, (ast.Gt, ast.NotEq))) or (k == 1 and isinstance(op, ast.GtE)):
+                        plan.append(("nonempty", gp))
+                    elif (k == 0 and isinstance(op, (ast.Eq, ast.LtE))) or (k == 1 and isinstance(op, ast.Lt)):
+                        plan.append(("empty", gp))
+                    else:
+                        plan = None
+                        break
+                else:
+                    plan = None
+                    break
+            if not plan:
+                continue
+
+            def put(old, new_):
+                par = old._parent
+                for f, v in ast.iter_fields(par):
+                    if v is old:
+                        setattr(par, f, new_)
+                    elif isinstance(v, list):
+                        for j, x in enumerate(v):
+                            if x is old:
+                                v[j] = new_
+                new_._parent = par
+            for kind, node in plan:
+                if kind == "first":
+                    put(node, ast.Name(id=L, ctx=ast.Load()))
+                else:
+                    op = ast.Is() if kind == "empty" else ast.IsNot()
+                    put(node, set_pos(ast.Compare(left=ast.Name(id=L, ctx=ast.Load()), ops=[op], comparators=[ast.Constant(value=None)]), node))
+            a.value = set_pos(ast.Constant(value=None), a.value)
+            hit = set_pos(ast.Assign(targets=[ast.Name(id=L, ctx=ast.Store())], value=inner.value.args[0]), inner)
+            holder[:] = [hit, set_pos(ast.Break(), inner)]
+            relink(fn)
+            self.inlined.append("first-of-filtered-list")
+        return out
 
     # ------------------------------------------------------------------ tests decided by substitution of arguments
     def _fold_none_tests(self, stmts, local_defs):
